@@ -80,6 +80,10 @@ package mvp6_2
 //@   requires wired(m)
 //@   assume-before (*Context).Commit: m.ctx.Registers != nil && m.ctx.Transaction != nil
 //@   nooverflow cycle, m.counterFlush
+//@   -- (C03; F37) in the cycle in which a flush is requested, the write-back stage must not write what
+//@   -- is younger than the instruction that requested it: every write unit cycled while `flush` is set
+//@   -- is given that instruction's sequence number, never -1 ("write everything")
+//@   assert-before (*Coroutine).Cycle[wuReq]: flush && !ret ==> arg0.sequenceID == sequenceID
 //@   -- (C03) an execute unit's error ends the run only if no flush was requested in the same cycle
 //@   -- by a unit scanned before it: a wrong-path instruction must not make the run fail (known finding F22)
 //@   return 0: !flush
@@ -90,6 +94,11 @@ package mvp6_2
 //@   loop 0: exit executeUnitsIdle(m)
 //@   loop 0: exit cycle >= 1
 //@   loop 1: invariant cycle >= 1 && wired(m)
+//@   -- (C03; F36) several units can request a flush in the same cycle: the OLDEST instruction
+//@   -- decides from where (sequenceID) and to where (pc); a younger, wrong-path request changes nothing
+//@   loop 1: step resp.flush && (!prev(flush) || resp.sequenceID < prev(sequenceID)) ==> sequenceID == resp.sequenceID && pc == resp.pc
+//@   loop 1: step !(resp.flush && (!prev(flush) || resp.sequenceID < prev(sequenceID))) ==> sequenceID == prev(sequenceID) && pc == prev(pc)
+//@   loop 1: step flush == (prev(flush) || resp.flush)
 //@   loop 2: invariant cycle >= 1 && wired(m)
 //@   loop 3: invariant cycle >= 1 && wired(m)
 //@   loop 4: invariant cycle >= 1 && wired(m)
